@@ -152,6 +152,23 @@ def main(chk):
                 checks.append(('open', di, (nextfd, frozenset(live)), idx))
                 live.add(nextfd)
                 opened.append((nextfd, isdir))
+                # use the live descriptor so that it reaches its various internal states (directory stream opened, file
+                # position moved, ...) before it is closed later
+                for _ in range(r.randint(0, 2)):
+                    if isdir:
+                        use = r.choice(['fd_readdir', 'fd_readdir', 'fd_fdstat_get', 'fd_filestat_get'])
+                    else:
+                        use = r.choice(['fd_read', 'fd_seek', 'fd_tell', 'fd_fdstat_get', 'fd_filestat_get'])
+                    g.poke(0x3000, b'\0' * 8)
+                    if use == 'fd_readdir':
+                        idx = g.call(use, [nextfd, 0x7000, r.choice([64, 512, 4096]), 0, 0x7800])
+                    elif use == 'fd_read':
+                        idx = g.call(use, [nextfd, 0x2800, 1, 0x3200])
+                    elif use == 'fd_seek':
+                        idx = g.call(use, [nextfd, 1, 0, 0x3000])
+                    else:
+                        idx = g.call(use, [nextfd, 0x3000])
+                    checks.append(('errno', idx, 0, use + '(live)'))
                 nextfd += 1
             else:
                 fd, isdir = opened.pop(r.randrange(len(opened)))
